@@ -440,7 +440,7 @@ func shutdownScenarios(c *Ctx) {
 		rounds = 20
 	}
 	for it := 0; it < rounds; it++ {
-		for _, kind := range []string{"request", "validate", "membership", "membership-then-sync", "flood-then-sync", "flood-then-election", "two-syncs"} {
+		for _, kind := range []string{"request", "request-timer", "validate", "membership", "membership-then-sync", "flood-then-sync", "flood-then-election", "two-syncs"} {
 			w := NewWorld(100)
 			var members []interfaces.CommitteeMember
 			for i := 0; i < 4; i++ {
@@ -453,6 +453,13 @@ func shutdownScenarios(c *Ctx) {
 			}
 			cfg, bu, _, el := simpleConfig(w, memberId(me))
 			linger := time.Duration(20+r.Intn(150)) * time.Millisecond
+			if kind == "request-timer" {
+				// the library's own timer-based election trigger, armed by the term that is being started when the
+				// shutdown arrives: after WaitUntilShutdown nothing of it may be left, even once its timeout has passed
+				cfg.OverrideElectionTrigger = nil
+				cfg.ElectionTimeoutOnV0 = 90 * time.Millisecond
+				linger = time.Duration(10+r.Intn(40)) * time.Millisecond
+			}
 			inSpi := make(chan struct{}, 16)
 			release := make(chan struct{})
 			var sawDone int32
@@ -625,7 +632,7 @@ func shutdownScenarios(c *Ctx) {
 			}
 			t0 := time.Now()
 			cancel()
-			if kind == "request" || kind == "validate" {
+			if kind == "request" || kind == "validate" || kind == "request-timer" {
 				// C15: the context the blocked SPI call waits on is cancelled by the shutdown
 				ok := false
 				for k := 0; k < 200 && !ok; k++ {
@@ -654,6 +661,9 @@ func shutdownScenarios(c *Ctx) {
 				c.Violation("C16", "loop-alive-after-shutdown", fmt.Sprintf("cancelled while the worker was in %s: WaitUntilShutdown returned after %v but %d library goroutines are still running (%s)", kind, took, live, which), "shutdown-scenario "+kind)
 			}
 			time.Sleep(linger + 60*time.Millisecond)
+			if kind == "request-timer" {
+				time.Sleep(120 * time.Millisecond) // well past the election timeout armed before the shutdown
+			}
 			mu.Lock()
 			if late > 0 {
 				c.Violation("C16", "activity-after-shutdown", fmt.Sprintf("cancelled while the worker was in %s: %d callbacks after WaitUntilShutdown returned", kind, late), "shutdown-scenario "+kind)
